@@ -42,12 +42,23 @@ pub struct RegionResult {
     pub outside: u64,
     pub skipped: u64,
     pub violation: Option<String>,
+    /// every failing pixel matches the signature of the known thin-piece finding: an inside pixel that
+    /// lost at most two of its 16 sample cells, next to a stroke piece thinner than half a pixel
+    pub only_thin_piece_pinholes: bool,
+}
+
+fn thin_piece_pinhole(reg: &Region, c: P, px: u32) -> bool {
+    let a = px >> 24;
+    if a < 223 || px != a * 0x01010101 {
+        return false;
+    }
+    reg.inner.iter().any(|p| p.width() < 0.5 && p.signed_dist(c).abs() <= 1.5)
 }
 
 /// compares a white-on-transparent render with a region (already in device space)
 pub fn check_against_region(data: &[u32], w: i32, h: i32, reg: &Region, margin: f64) -> RegionResult {
     let r = (0.5 + margin) * std::f64::consts::SQRT_2;
-    let mut res = RegionResult { inside: 0, outside: 0, skipped: 0, violation: None };
+    let mut res = RegionResult { inside: 0, outside: 0, skipped: 0, violation: None, only_thin_piece_pinholes: true };
     for y in 0..h {
         for x in 0..w {
             let c = P::new(x as f64 + 0.5, y as f64 + 0.5);
@@ -55,12 +66,18 @@ pub fn check_against_region(data: &[u32], w: i32, h: i32, reg: &Region, margin: 
             match classify(reg, c, r) {
                 Some(true) => {
                     res.inside += 1;
+                    if px != 0xffffffff && !thin_piece_pinhole(reg, c, px) {
+                        res.only_thin_piece_pinholes = false;
+                    }
                     if px != 0xffffffff && res.violation.is_none() {
                         res.violation = Some(format!("pixel ({},{}) lies inside the stroke region by more than the margin {} but is {} instead of fully painted", x, y, margin, hex(px)));
                     }
                 }
                 Some(false) => {
                     res.outside += 1;
+                    if px != 0 {
+                        res.only_thin_piece_pinholes = false;
+                    }
                     if px != 0 && res.violation.is_none() {
                         res.violation = Some(format!("pixel ({},{}) lies outside the stroke region by more than the margin {} but is {} instead of untouched", x, y, margin, hex(px)));
                     }
@@ -101,7 +118,7 @@ pub fn run_stroke_case(c: &StrokeCase, st: &mut Stats) -> (RegionResult, bool) {
     let margin = if straight && c.aa { 0.5 } else { 1.0 };
     if reg.ill {
         st.add("cases_skipped_ill_conditioned", 1);
-        return (RegionResult { inside: 0, outside: 0, skipped: (c.w * c.h) as u64, violation: None }, true);
+        return (RegionResult { inside: 0, outside: 0, skipped: (c.w * c.h) as u64, violation: None, only_thin_piece_pinholes: true }, true);
     }
     let res = check_against_region(dt.get_data(), c.w, c.h, &reg, margin);
     st.add("px_inside_asserted", res.inside);
@@ -165,6 +182,10 @@ fn gen_polyline_path(rng: &mut Rng, w: i32, h: i32, curves: bool, min_seg: f64) 
             }
         }
         if rng.chance(0.4) {
+            // now and then the subpath returns to its start explicitly before closing
+            if rng.chance(0.25) {
+                ops.push(PathOp::LineTo(Point::new(pts[0].x as f32, pts[0].y as f32)));
+            }
             ops.push(PathOp::Close);
         }
     }
@@ -181,6 +202,10 @@ fn well_conditioned(path: &Path, t: &Transform) -> bool {
                 continue;
             }
             pts.push(*p);
+        }
+        // a closed subpath may return to its start explicitly: that is one vertex, not two
+        if s.closed && pts.len() >= 2 && pts[0].dist(pts[pts.len() - 1]) < 1e-9 {
+            pts.pop();
         }
         let n = pts.len();
         if n < 2 {
@@ -260,6 +285,38 @@ pub fn run(ctx: &Ctx) -> Outcome {
         co
     });
 
+    // the known thin-piece finding, reproduced on every run
+    run_cases(ctx, &mut out, SubSpec { name: "directed", cases: 1, exhaustive: false, max_secs: 30. }, |_i, want, st| {
+        let mut pb = PathBuilder::new();
+        pb.move_to(10.016865, 12.364886);
+        pb.line_to(10.006929, 12.560599);
+        pb.line_to(13.331169, 14.183349);
+        pb.line_to(16.240944, 6.865765);
+        let c = StrokeCase {
+            w: 16,
+            h: 13,
+            path: pb.finish(),
+            style: StrokeStyle { width: 10.521669, cap: LineCap::Butt, join: LineJoin::Miter, miter_limit: 2.0, dash_array: vec![], dash_offset: 0. },
+            t: Transform::new(1.0, -0.46260524, -0.16476995, 1.0, 1.0710049, 3.700842),
+            aa: true,
+        };
+        let mut co = CaseOut::default();
+        co.hash = 1;
+        let (res, _) = run_stroke_case(&c, st);
+        co.nontrivial = res.inside > 0 && res.outside > 0;
+        if let Some(v) = res.violation {
+            if res.only_thin_piece_pinholes && ctx.known.active("C04", "thin-piece-orientation-flip") {
+                co.known.push(("C04:thin-piece-orientation-flip".to_string(), v));
+            } else {
+                co.viol("C04", v);
+            }
+        }
+        if want || !co.violations.is_empty() {
+            co.desc = Some(case_desc(&c));
+        }
+        co
+    });
+
     run_cases(ctx, &mut out, SubSpec { name: "strokes", cases: ctx.n(40_000, 1_000_000), exhaustive: false, max_secs: secs }, |i, want, st| {
         let mut rng = ctx.rng("strokes", i);
         let w = rng.int(8, 48) as i32;
@@ -297,7 +354,11 @@ pub fn run(ctx: &Ctx) -> Outcome {
         st.add(&format!("join:{:?}", c.style.join), 1);
         st.add(&format!("cap:{:?}", c.style.cap), 1);
         if let Some(v) = res.violation {
-            co.viol("C04", v);
+            if res.only_thin_piece_pinholes && ctx.known.active("C04", "thin-piece-orientation-flip") {
+                co.known.push(("C04:thin-piece-orientation-flip".to_string(), v));
+            } else {
+                co.viol("C04", v);
+            }
         }
         if want || !co.violations.is_empty() {
             co.desc = Some(case_desc(&c));
